@@ -245,6 +245,13 @@ fn make_runner() -> Runner {
 
 thread_local! {
     static RUNNER: Runner = make_runner();
+    static IN_SUBJECT: std::cell::Cell<bool> = const { std::cell::Cell::new(false) };
+}
+
+/// Whether the current thread is executing the subject (its panics are caught and classified;
+/// panics of the harness itself must stay visible).
+pub fn in_subject() -> bool {
+    IN_SUBJECT.with(|f| f.get())
 }
 
 /// The set of registered file-name suffixes.
@@ -268,9 +275,11 @@ pub fn run(input: &Input) -> Outcome {
 /// no recorded answers that is the canonical serial schedule.
 pub fn run_traced(input: &Input) -> (Outcome, Vec<verif_hooks::Choice>, Option<String>) {
     verif_hooks::install(input.choices.clone());
+    IN_SUBJECT.with(|f| f.set(true));
     let result = std::panic::catch_unwind(std::panic::AssertUnwindSafe(|| {
         RUNNER.with(|runner| runner(input))
     }));
+    IN_SUBJECT.with(|f| f.set(false));
     let (trace, diverged) = verif_hooks::uninstall();
     let outcome = match result {
         Ok(outcome) => outcome,
